@@ -30,7 +30,7 @@ META = {
             "table builder raises RuntimeError on a family of valid id sets), tied to the real function each run.",
     "level_note": "Exploration is bounded by the mutation corpus and the 5 s limit. The Coq part is a hand model of "
                   "jumptable_utils (H-tie by differential). PUSH totality is proved under C16 (push_total) and only cited here; "
-                  "calculate_largest_power/base loop totality is not proved (the initial guess uses Decimal.ln).",
+                  "calculate_largest_power/base: loops proved total+exact for any guess in a window; that the real Decimal/math guess lies in the window is checked, not proved.",
     "technique": "outcome-classification exploration in subprocess workers + Coq refutation by vm_compute witness",
 }
 
@@ -249,7 +249,7 @@ def run_shard(tmp, k, items, limit, configs):
 def part_outcomes(ctx, tmp):
     rnd = ctx.rng("mut")
     progs = base_programs(ctx)
-    n_mut = 300 if ctx.tier == "quick" else 3000
+    n_mut = 260 if ctx.tier == "quick" else 3000
     items = [{"id": f"base:{n}", "src": s, "how": "unchanged", "base": n} for n, s in progs.items()]
     names = sorted(progs)
     for i in range(n_mut):
@@ -259,17 +259,84 @@ def part_outcomes(ctx, tmp):
             s, how2 = mutate(s, rnd)
             how += "+" + how2
         items.append({"id": f"mut{i}", "src": s, "how": how, "base": b})
+    for i in range(60 if ctx.tier == "quick" else 600):
+        txt, how = mutate_json(JSON_ABI, rnd)
+        items.append({"id": f"json{i}", "files": {"iabi.json": txt, "user.vy": JSON_USER}, "target": "user.vy", "how": "json-abi:" + how,
+                      "base": "JSON_ABI"})
     configs = [[False, "gas"], [True, "gas"], [False, "none"], [True, "O3"]] if ctx.tier == "quick" else \
         [[v, l] for v in (False, True) for l in ("none", "gas", "codesize", "O3")]
     nsh = 3
     shards = [items[k::nsh] for k in range(nsh)]
     with ThreadPoolExecutor(max_workers=nsh) as ex:
-        rows = [r for rs in ex.map(lambda k: run_shard(tmp, k, [{"id": it["id"], "src": it["src"]} for it in shards[k]], 5, configs),
+        rows = [r for rs in ex.map(lambda k: run_shard(tmp, k, [{kk: v for kk, v in it.items() if kk in ("id", "src", "files", "target", "paths")}
+                                                                  for it in shards[k]], 5, configs),
                                    range(nsh)) for r in rs]
     return classify_rows(ctx, rows, items, "mut")
 
 
 ALL_CONFIGS = [[v, l] for v in (False, True) for l in ("none", "gas", "codesize", "O3")]
+
+JSON_ABI = [
+    {"type": "function", "name": "ping", "stateMutability": "view", "inputs": [{"name": "x", "type": "uint256"}],
+     "outputs": [{"name": "", "type": "uint256"}]},
+    {"type": "function", "name": "poke", "stateMutability": "nonpayable",
+     "inputs": [{"name": "p", "type": "tuple", "components": [{"name": "a", "type": "address"}, {"name": "b", "type": "bytes"}]},
+                {"name": "l", "type": "int8[]"}], "outputs": []},
+    {"type": "event", "name": "Ev", "anonymous": False, "inputs": [{"name": "who", "type": "address", "indexed": True},
+                                                                     {"name": "v", "type": "string", "indexed": False}]},
+    {"type": "constructor", "stateMutability": "payable", "inputs": []},
+]
+JSON_USER = """
+import iabi
+
+@external
+def f(t: address, x: uint256) -> uint256:
+    return staticcall iabi(t).ping(x)
+"""
+
+
+def mutate_json(abi, rnd):
+    """one structural mutation of a JSON ABI (kept valid JSON, except for the text-level cases)"""
+    abi = json.loads(json.dumps(abi))
+    paths = []
+
+    def walk(o, path):
+        if isinstance(o, dict):
+            for k, v in o.items():
+                paths.append(path + [k])
+                walk(v, path + [k])
+        elif isinstance(o, list):
+            for i, v in enumerate(o):
+                paths.append(path + [i])
+                walk(v, path + [i])
+    walk(abi, [])
+    k = rnd.randrange(8)
+    if k == 0:
+        return rnd.choice(["5", "null", "{}", '{"abi": 5}', '"x"', "[1, 2]", "[[]]", "[null]"]), "toplevel"
+    if k == 1:
+        t = json.dumps(abi)
+        return t[:rnd.randrange(len(t))], "truncate"
+    path = rnd.choice(paths)
+    parent = abi
+    for q in path[:-1]:
+        parent = parent[q]
+    last = path[-1]
+    if k in (2, 3):
+        del parent[last]
+        how = "delete " + str(last)
+    elif k in (4, 5):
+        parent[last] = rnd.choice([5, None, [], {}, "", "Pure", "uint7", "tuple", "uint256[", "function", True, -1, "int8[][", "bytes33",
+                                   "fixed128x10", "uint256[0]", "()", "error", "fallback", "receive"])
+        how = f"set {last}"
+    elif k == 6 and isinstance(parent, list):
+        parent.append(parent[last])
+        how = "duplicate element"
+    else:
+        if isinstance(parent, dict):
+            parent[rnd.choice(["type", "name", "stateMutability", "components", "payable", "constant", "indexed", "anonymous"])] = \
+                rnd.choice(["x", 1, [], {}, None, True])
+        how = "add key"
+    return json.dumps(abi), how
 
 
 def part_valid(ctx, tmp):
@@ -319,7 +386,12 @@ def classify_rows(ctx, rows, items, part):
                 stats["diag:" + o["exc"]] += 1
             if o["outcome"] == "INTERNAL":
                 f = o.get("frame", "?:?")
-                key = f"C20:{o['exc']}:{f}:{msg_class(o.get('msg'))}"
+                # message class only for the compiler's own internal exception classes (it separates different panics
+                # raised in one function); raw Python exceptions are identified by type + frame
+                key = f"C20:{o['exc']}:{f}" + (":" + msg_class(o.get("msg")) if o.get("vyper_internal") else "")
+                if it["how"].startswith("json-abi:"):
+                    # malformed JSON ABI inputs: one family (no schema validation); keyed by frame only
+                    key = f"C20:json-abi:{o['exc']}:{f}"
                 internal.setdefault(key, (it, name, o))
         if r["id"].startswith("base:") and any(o["outcome"] != "output" for o in outs):
             ctx.violation("correspondence-broken", "an unchanged corpus program does not compile", {"program": it["base"], "outcomes": outs})
@@ -330,11 +402,11 @@ def classify_rows(ctx, rows, items, part):
             good = [k for k, o in runs.items() if o["outcome"] == "output"]
             if bad and not good and part == "valid":
                 k0, o0 = sorted(bad.items())[0]
-                key = f"C20:backend-reject:{o0['exc']}:{o0.get('frame')}:{msg_class(o0.get('msg'))}"
+                key = f"C20:backend-reject:{o0['exc']}:{o0.get('frame')}"
                 internal.setdefault(key, (it, k0, dict(o0, note="accepted by semantic analysis, rejected by every back-end configuration")))
             if bad and good:
                 k0, o0 = sorted(bad.items())[0]
-                key = f"C20:backend-disagree:{o0['exc']}:{o0.get('frame')}:{msg_class(o0.get('msg'))}"
+                key = f"C20:backend-disagree:{o0['exc']}:{o0.get('frame')}"
                 internal.setdefault(key, (it, k0, dict(o0, note=f"accepted by semantic analysis and compiled by {good}, rejected by {sorted(bad)}")))
     for key, (it, cfgname, o) in sorted(internal.items()):
         ctx.violation("failing-input", f"internal outcome {o['exc']} at {o.get('frame')} ({it['how']} of {it['base']})",
@@ -479,6 +551,8 @@ def run(ctx):
         stats, n_items = part_outcomes(ctx, tmp)
         vstats, n_valid = part_valid(ctx, tmp)
         r_arity = probe_arity(ctx)
+        from vlib import c20_pow
+        n_pow = c20_pow.run(ctx)
         r_cfg = probe_simplify_cfg(ctx)
         n_dense = 0
         if (coqrun.COQ / "C20" / "DenseTable.vo").exists():
@@ -511,11 +585,16 @@ def run(ctx):
     if not b["ok"] and len(ctx.violations) + len(ctx.known_hits) == nv0:
         ctx.violation("theorem-broken", f"{b.get('failed_lemma')} in {b['file']}",
                       {"theorem": b.get("failed_lemma"), "file": b["file"], "coq_output": b["out"][-1500:]})
-    ctx.corr["evaluations"] = int(stats["compilations"]) + int(vstats["compilations"]) + n_dense + 4
-    ctx.corr["distinct_nontrivial"] = n_items + n_valid + n_dense + 4
+    ctx.corr["evaluations"] = int(stats["compilations"]) + int(vstats["compilations"]) + n_dense + 4 + n_pow
+    ctx.corr["distinct_nontrivial"] = n_items + n_valid + n_dense + 4 + n_pow
     ctx.corr["rule"] = "distinct source texts (unchanged + mutated) each compiled by the front end and up to 4 (quick) / 8 back-end configs; dense id sets; 3 targeted probes"
     ctx.extra["explanation"] = (
-        "PROVED (Coq): dense_table_refuted -- a vm_compute witness of 5 valid method ids on which the model of "
+        "PROVED (Coq): largest_power_total / largest_base_total on the py2coq translation of calculate_largest_power/base "
+        "(vyper/codegen/arithmetic.py, regenerated each run, Decimal/math initial guess abstracted as a parameter): for any guess "
+        "in the stated window the adjust loops end without tripping `assert num_iterations < 10000` and return the exact extremal "
+        "value; the window hypothesis is checked on the real guess (exhaustively over the whole domain of calculate_largest_base "
+        f"in the thorough tier; {ctx.corr.get('pow_base_guess_checked')} + {ctx.corr.get('pow_power_guess_checked')} cases this run). "
+        "dense_table_refuted -- a vm_compute witness of 5 valid method ids on which the model of "
         "generate_dense_jumptable_info ends in RuntimeError; the model is tied by running the real function on the witness and on "
         f"{n_dense} id sets. Cited: push_total (C16). NOT proved: whole-compiler totality. EXPLORED: {n_items} source texts "
         f"({int(stats['compilations'])} compilations, 5 s limit, fresh worker processes): {int(stats['outcome:output'])} output, "
